@@ -419,7 +419,7 @@ func init() {
 func TestC08_Locked(t *testing.T) {
 	st := ev.New("C08", "TestC08_Locked", "fresh chain; generated lockup (1-5 periods) and vesting (0-5 periods) schedules applied to an account with some free coins; 2-8 blocks with time jumps across period boundaries, in which the vesting account spends over bank send / multi-send / eth value transfer / fee / gov deposit / DAO fund / liquidation and delegates by message / authz exec / staking precompile at amounts around spendable ±1..2, interleaved with undelegations, merged grants, clawbacks, slashing; non-trivial = at some point 0 < locked < balance and a spend over a path other than bank send was accepted")
 	runCorpus(t, st)
-	runRapid(t, st, 300, 12000, func(rt *rapid.T) {
+	runRapid(t, st, 300, 30000, func(rt *rapid.T) {
 		if msg := runC08(st, genC08(rt)); msg != "" {
 			rt.Fatalf("%s", msg)
 		}
